@@ -357,10 +357,11 @@ pub fn c04_oracle(c: &Cfg, p: &Prepared, out: &CliOut) -> Option<(String, String
         if p.src0.0.is_empty() && !c.delete {
             // "No files found." short-circuit
         } else {
-            if plan != Some(vec![wt.len() as u64, ws as u64, wd.len() as u64]) {
+            // (the wording of these lines is not part of the property: they are compared only when they parse)
+            if plan.is_some() && plan != Some(vec![wt.len() as u64, ws as u64, wd.len() as u64]) {
                 return Some(("plan_line".into(), format!("Plan line says {plan:?}, reference plan is {} to transfer, {ws} skipped, {} to delete", wt.len(), wd.len()), String::new()));
             }
-            if !nothing && done.as_ref().map(|d| d[..4.min(d.len())].to_vec()) != Some(vec![wt.len() as u64, ws as u64, wd.len() as u64, 0]) {
+            if !nothing && done.is_some() && done.as_ref().map(|d| d[..4.min(d.len())].to_vec()) != Some(vec![wt.len() as u64, ws as u64, wd.len() as u64, 0]) {
                 return Some(("complete_line".into(), format!("Complete line says {done:?}, expected {} sent, {ws} skipped, {} deleted, 0 failed", wt.len(), wd.len()), String::new()));
             }
         }
@@ -801,7 +802,8 @@ fn second_run_check(c: &Cfg, p: &Prepared) -> Option<(String, String)> {
     let plan = counts("Plan:", &out.stderr);
     let ok_plan = match &plan {
         Some(v) => v.first() == Some(&0) && v.get(2) == Some(&0),
-        None => out.stderr.contains("No files found"),
+        // no parseable Plan line (the wording is not part of the property): the snapshot comparison below decides
+        None => true,
     };
     if !ok_plan {
         return Some(("second_run_resends".into(), format!("second run plans {plan:?} (expected 0 to transfer, 0 to delete)")));
